@@ -31,7 +31,7 @@ CLAIMED = {
          "Each of the 657 named colours on a body cell (exhaustive), all encoding paths x component modes (exhaustive) and random palettes of 1..8 colours on random components (documents of one and of 17+ pages) as text/background/border colour with the 10 fonts: TLC checks that every \\cf/\\chcbpat/\\brdrcf index names the document's own table entry with the requested RGB and every \\fN the requested font."),
  "C14": ("5 C14", "TLC model checking of operation histories (spec/ColorHist.tla over spec/ColorCtx.tla) + TLC trace validation (spec/HistTrace.tla) of histories executed in forked children",
          "TLC enumerates all histories up to the exhaustive length over a pool of 20 documents (two families sharing an RTFBody) (and simulates length-4 ones); each is executed in a forked child of an import-only parent and TLC checks, per operation, that the output digest equals the one from a fresh interpreter, that ValueError is raised exactly by the failing document, and that the caller's DataFrame is unchanged."),
- "C15": ("5 C15", "TLC model checking of all thread interleavings (spec/ColorCtx.tla), TLC-generated schedules replayed on real threads with a settrace gate, single preemption at every library call boundary (warm, fresh-process and saturated-process families; thread pairs sharing caller-owned components), nested two-preemption schedules, conformance of recorded colour events (spec/CtxTrace.tla)",
+ "C15": ("5 C15", "TLC model checking of all thread interleavings (spec/ColorCtx.tla), TLC-generated schedules replayed on real threads with a settrace gate, single preemption at every library call boundary (warm, fresh-process and saturated-process families; thread pairs sharing caller-owned components), nested two-preemption and three-switch (park, park, step out) schedules, conformance of recorded colour events (spec/CtxTrace.tla)",
          "All interleavings of 2 and 3 encoder processes are model-checked; every sampled TLC schedule of colour-context steps is replayed on real threads; thread A is preempted at every distinct library function call (thorough: every call instance) with thread B run to completion, plus sampled 2-3 preemptions with 3 threads; TLC judges that each thread's output equals its output alone and that the recorded colour events are a behaviour of the per-thread-context specification."),
  "C17": ("5 C17", "TLC model checking of spec/Assemble.tla (files as classified lines) + TLC trace validation (spec/AssembleTrace.tla) of assembled files read back, incl. environments (output aliasing an input, stale output, re-run, twin inputs, a failed or unrelated previous call of the process)",
          "All argument lists of up to 2-3 inputs over table/figure x colour x header/footer x 1-2 pages (exhaustive), lists with missing files, simulated lists of up to 6 inputs incl. landscape: the files are written by write_rtf, assembled by assemble_rtf, read back, and TLC checks well-formedness, page-by-page equality with the concatenated inputs, restated geometry at each input's first page, single-input identity, empty list and missing file behaviour."),
